@@ -53,6 +53,10 @@ func bodyText(kind string) string {
 		return "(do (trace! :run) (block! 1) 42)"
 	case "panic":
 		return "(do (trace! :run) (gate! 0) (raw-panic!))"
+	case "nested":
+		// the outer body starts an inner future (which inherits the outer body's context) and returns it
+		// at once; the inner body is the one parked at the gate
+		return "(do (trace! :run) (future (do (gate! 0) 7)))"
 	case "nil":
 		return "(do (trace! :run) (gate! 0) nil)"
 	case "nil-sleep":
@@ -62,7 +66,7 @@ func bodyText(kind string) string {
 }
 
 func genCase(t *rapid.T) Case {
-	c := Case{Body: []string{"value", "value", "throw", "sleep", "ignore", "panic", "nil", "nil-sleep"}[gen.Uniform(t, "body", 8)]}
+	c := Case{Body: []string{"value", "value", "throw", "sleep", "ignore", "panic", "nil", "nil-sleep", "nested"}[gen.Uniform(t, "body", 9)]}
 	for _, s := range sites {
 		if gen.Uniform(t, "hold", 4) == 0 {
 			c.Hold = append(c.Hold, s)
@@ -333,6 +337,27 @@ func check(c Case) pbt.Verdict {
 		}
 	}
 
+	// nested futures: cancelling the completed outer future (answer false) changes nothing, so the inner
+	// future, started by the outer body, still delivers its value
+	if c.Body == "nested" {
+		anyTrue := false
+		mu.Lock()
+		for _, r := range hist {
+			if r.op == "cancel" && r.b {
+				anyTrue = true
+			}
+		}
+		mu.Unlock()
+		ictx, icancel := context.WithTimeout(context.Background(), 10*time.Second)
+		r := box.ReadEval(ictx, "(deref (deref fut))", e)
+		icancel()
+		if !anyTrue {
+			if r.Panicked || r.Err != nil || r.Val != 7 {
+				return pbt.Failf("cancel-of-completed-future-had-an-effect", "no future-cancel returned true, yet the inner future started by the body does not deliver 7: value=%v err=%v\n%s", r.Val, r.Err, describe(c))
+			}
+		}
+	}
+
 	// ---- invariants over the recorded history ----
 	fail := func(sig, format string, a ...any) pbt.Verdict {
 		var sb strings.Builder
@@ -448,7 +473,8 @@ func check(c Case) pbt.Verdict {
 	}
 	// a cancel issued and answered while the body was parked at its gate (still running), with no
 	// other cancel before or during it, must return true
-	if firstCancel != nil && bodyArrived.Load() != 0 && firstCancel.call > bodyArrived.Load() && firstCancel.ret < bodyReleased.Load() {
+	// (not for the nested shape: there the gate is reached by the INNER body, the outer one has completed)
+	if c.Body != "nested" && firstCancel != nil && bodyArrived.Load() != 0 && firstCancel.call > bodyArrived.Load() && firstCancel.ret < bodyReleased.Load() {
 		alone := true
 		for _, o := range hist {
 			if o.op == "cancel" && !(o.call == firstCancel.call && o.ret == firstCancel.ret) && o.call <= firstCancel.ret {
